@@ -15,6 +15,8 @@ import time
 VERIF = os.path.dirname(os.path.dirname(os.path.abspath(__file__)))
 SPEC = os.path.join(VERIF, "spec")
 REPO = os.environ.get("VERIF_REPO", "/repo")
+# evidence and replay files describe /repo itself; a run against a scratch copy (VERIF_REPO) writes them aside
+OUTDIR = VERIF if REPO == "/repo" else os.path.join(VERIF, ".work", "scratch-" + os.path.basename(REPO.rstrip("/")))
 JAR = "/opt/veriftools/tla/tla2tools.jar:/opt/veriftools/tla/CommunityModules-deps.jar"
 NCPU = os.cpu_count() or 4
 
@@ -335,7 +337,7 @@ class Ctx:
             seen.add(h)
             if len(seen) > 25:
                 continue
-            d = os.path.join(VERIF, "replays", self.prop)
+            d = os.path.join(OUTDIR, "replays", self.prop)
             os.makedirs(d, exist_ok=True)
             p = os.path.join(d, h + ".json")
             with open(p, "w") as f:
@@ -372,8 +374,8 @@ class Ctx:
             "wall_s": round(time.time() - self.t0, 2),
             "violations": len(seen),
         }
-        os.makedirs(os.path.join(VERIF, "evidence"), exist_ok=True)
-        with open(os.path.join(VERIF, "evidence", self.prop + ".json"), "w") as f:
+        os.makedirs(os.path.join(OUTDIR, "evidence"), exist_ok=True)
+        with open(os.path.join(OUTDIR, "evidence", self.prop + ".json"), "w") as f:
             json.dump(ev, f, indent=1, default=str, ensure_ascii=True)
         print("%s tier=%s seed=%d states=%d transitions=%d evaluations=%d nontrivial=%d "
               "traces=%d failing=%d known=%d violations=%d wall=%.1fs" %
